@@ -53,10 +53,11 @@ REQUIRED_LABELS = {
         "q:quantized_relu_po2", "q:binary", "q:ternary", "q:stochastic_ternary",
         "q:stochastic_binary", "q:quantized_tanh", "q:quantized_sigmoid",
         "q:quantized_ulaw", "q:quantized_linear", "q:bernoulli", "string_form",
-        "merge", "masked_conv"],
+        "merge", "masked_conv", "canonical", "hyp"],
     "thorough": ["L:" + c for c in _LAYERS] + [
         "route_ok:json", "route_ok:clone", "route_ok:h5", "pred_compared",
-        "q:quantized_hswish", "lossy", "api:predict", "masked_conv", "merge"],
+        "q:quantized_hswish", "lossy", "api:predict", "masked_conv", "merge",
+        "canonical", "hyp"],
 }
 ROUTES = ("json", "clone", "h5")
 EXCLUDED_UNBUILDABLE = ["QConv2DTranspose", "QGRU(reset_after=True,use_bias=True)"]
@@ -342,7 +343,7 @@ def judge(desc, api="call", routes=ROUTES, stats=None, diagnose=True):
   return True, fails
 
 
-def oracle_case(ctx, case):
+def oracle_case(ctx, case, extra_labels=()):
   desc = case["model"]
   api = case.get("api", "call")
   _count["n"] += 1
@@ -398,6 +399,7 @@ def oracle_case(ctx, case):
     if len(ctx.info["unbuildable_examples"]) < 3:
       ctx.info["unbuildable_examples"].append(stats.get("unbuildable"))
   labs += [k for k, v in stats.items() if v is True]
+  labs += list(extra_labels)
   ctx.tick(case, labels=labs, nontrivial=built and qn > 0,
            sample_label="fam:" + desc.get("family", "?"))
   return fails
@@ -419,7 +421,13 @@ def run(ctx):
     if ctx.time_left() <= 0:
       ctx.labels["skipped_time"] += 1
       return []
-    return oracle_case(ctx, case)
+    return oracle_case(ctx, case, extra_labels=["hyp"])
+
+  # deterministic floor: one canonical model per layer class
+  canon = [{"model": d, "api": "call"} for d in G.canonical_models("c13")]
+  for case in ctx.shard(canon):
+    for sc, sig, detail in oracle_case(ctx, case, extra_labels=["canonical"]):
+      ctx.fail(sc, sig, case, detail)
 
   n = (420 if ctx.quick else 6000) // ctx.n + 1
   core.hyp_run(ctx, case_st(), orc, n, name="c13")
